@@ -388,6 +388,13 @@ func SameAsHome(key string, v interface{}) {
 	h, ok := homes[key]
 	mu.Unlock()
 	eq := ok && reflect.DeepEqual(h, v)
+	if eq && h != nil && v != nil {
+		// equal elements are not the whole slice: its capacity decides what append does
+		a, b := reflect.ValueOf(h), reflect.ValueOf(v)
+		if a.Kind() == reflect.Slice && b.Kind() == reflect.Slice && a.Cap() != b.Cap() {
+			eq = false
+		}
+	}
 	if ok && h != nil && v != nil {
 		// function values are compared by what they return (parameterless ones)
 		a, b := reflect.ValueOf(h), reflect.ValueOf(v)
